@@ -126,7 +126,10 @@ pub fn dedent(s: &str) -> String {
 
         // Check if the line had anything but whitespace and if we
         // have found a shorter prefix
-        if whitespace_idx < line.len() && whitespace_idx < prefix.len() {
+        if whitespace_idx < line.len()
+            && whitespace_idx < prefix.len()
+            && line.chars().any(|c| !c.is_whitespace())
+        {
             prefix = &line[..whitespace_idx];
         }
     }
